@@ -124,6 +124,22 @@ def run(ctx):
     inc_ref = (W_(th - op("roll", th, sp.Integer(1))) + W_(op("roll", th, sp.Integer(-1)) - th)) / 2
     captured = {}
 
+    def moment_components(mv):
+        """The four components of the vector handed to the solver: an explicit array([..]) of four elements, or the
+        trailing-axis slice of np.stack((..four arrays..), axis=-1) at one index."""
+        if fname(mv) == "array" and len(mv.args) == 4:
+            return list(mv.args)
+        if fname(mv) == "item" and fname(mv.args[0]) == "stack" and isinstance(mv.args[1], sp.Tuple):
+            st, idx = mv.args[0], list(mv.args[1].args)
+            seq = st.args[0]
+            axis = [a.args[1] for a in st.args[1:] if isinstance(a, sp.Tuple) and len(a.args) == 2 and a.args[0] == Str("axis")]
+            axis += [a for a in st.args[1:] if getattr(a, "is_Integer", False)]
+            if isinstance(seq, sp.Tuple) and len(seq.args) == 4 and axis == [sp.Integer(-1)] and idx \
+                    and fname(idx[-1]) == "slc" and all(a == NONE_T for a in idx[-1].args):
+                lead = idx[:-1]
+                return [op("item", x, sp.Tuple(*lead) if len(lead) != 1 else lead[0]) for x in seq.args]
+        return None
+
     def twiddle_rows(t):
         rows = {}
         cur = T.to_term(t)
@@ -131,6 +147,15 @@ def run(ctx):
             i = cur.args[1]
             if isinstance(i, sp.Tuple) and len(i.args) == 2 and i.args[0].is_Integer:
                 rows.setdefault(int(i.args[0]), cur.args[2])
+            elif isinstance(i, sp.Tuple) and len(i.args) == 2 and fname(i.args[0]) == "slc" and i.args[0].args[2] == NONE_T \
+                    and all(getattr(x, "is_Integer", False) for x in i.args[0].args[:2]):
+                # several rows at once: table[lo:hi, :] = (row_lo, ..., row_hi-1)
+                lo, hi = int(i.args[0].args[0]), int(i.args[0].args[1])
+                val = cur.args[2]
+                vals = list(val.args) if isinstance(val, sp.Tuple) or fname(val) in ("array", "tuple", "list") else None
+                if vals is not None and len(vals) == hi - lo:
+                    for j, v_ in enumerate(vals):
+                        rows.setdefault(lo + j, v_)
             cur = cur.args[0]
         return rows
 
@@ -185,9 +210,10 @@ def run(ctx):
         cap = captured.get(key)
         mv = T.to_term(cap.get("moments")) if cap and cap.get("moments") is not None else None
         ok = False
-        if mv is not None and fname(mv) == "array" and len(mv.args) == 4:
-            bases = [a.args[0] if fname(a) == "item" else None for a in mv.args]
-            idxs = {a.args[1] for a in mv.args if fname(a) == "item"}
+        comps = moment_components(mv) if mv is not None else None
+        if comps is not None:
+            bases = [a.args[0] if fname(a) == "item" else None for a in comps]
+            idxs = {a.args[1] for a in comps if fname(a) == "item"}
             ok = bases == [A1_, B1_, A2_, B2_] and len(idxs) == 1
         ctx.expect(ok, "R06.1", f"{fdr.name}[moment vector]", "moments == [a1, b1, a2, b2] at one and the same index", fdr.loc(),
                    derived=T.show(mv, 160) if mv is not None else "not captured")
